@@ -1026,9 +1026,14 @@ fn evaluate_scalar_func(
                 }
             }
 
+            let start_nulls = start_arr.logical_nulls();
+            let len_nulls = len_arr.and_then(|a| a.logical_nulls());
             let result: StringArray = (0..str_arr.len())
                 .map(|i| {
-                    if str_arr.is_null(i) {
+                    if str_arr.is_null(i)
+                        || start_nulls.as_ref().is_some_and(|n| n.is_null(i))
+                        || len_nulls.as_ref().is_some_and(|n| n.is_null(i))
+                    {
                         return None;
                     }
                     let s = str_arr.value(i);
@@ -1662,6 +1667,7 @@ fn evaluate_scalar_func(
                 .downcast_ref::<StringArray>()
                 .ok_or_else(|| QueryError::Type("LPAD requires string argument".into()))?;
             let len_arr = &evaluated_args[1];
+            let len_nulls = len_arr.logical_nulls();
             let pad_char = if evaluated_args.len() > 2 {
                 if let Some(pad_arr) = evaluated_args[2].as_any().downcast_ref::<StringArray>() {
                     pad_arr.value(0).to_string()
@@ -1674,7 +1680,7 @@ fn evaluate_scalar_func(
 
             let result: StringArray = (0..str_arr.len())
                 .map(|i| {
-                    if str_arr.is_null(i) {
+                    if str_arr.is_null(i) || len_nulls.as_ref().is_some_and(|n| n.is_null(i)) {
                         None
                     } else {
                         let s = str_arr.value(i);
@@ -1705,6 +1711,7 @@ fn evaluate_scalar_func(
                 .downcast_ref::<StringArray>()
                 .ok_or_else(|| QueryError::Type("RPAD requires string argument".into()))?;
             let len_arr = &evaluated_args[1];
+            let len_nulls = len_arr.logical_nulls();
             let pad_char = if evaluated_args.len() > 2 {
                 if let Some(pad_arr) = evaluated_args[2].as_any().downcast_ref::<StringArray>() {
                     pad_arr.value(0).to_string()
@@ -1717,7 +1724,7 @@ fn evaluate_scalar_func(
 
             let result: StringArray = (0..str_arr.len())
                 .map(|i| {
-                    if str_arr.is_null(i) {
+                    if str_arr.is_null(i) || len_nulls.as_ref().is_some_and(|n| n.is_null(i)) {
                         None
                     } else {
                         let s = str_arr.value(i);
@@ -1752,10 +1759,11 @@ fn evaluate_scalar_func(
                 .downcast_ref::<StringArray>()
                 .ok_or_else(|| QueryError::Type("SPLIT_PART requires string delimiter".into()))?;
             let idx_arr = &evaluated_args[2];
+            let idx_nulls = idx_arr.logical_nulls();
 
             let result: StringArray = (0..str_arr.len())
                 .map(|i| {
-                    if str_arr.is_null(i) || delim_arr.is_null(i) {
+                    if str_arr.is_null(i) || delim_arr.is_null(i) || idx_nulls.as_ref().is_some_and(|n| n.is_null(i)) {
                         None
                     } else {
                         let s = str_arr.value(i);
@@ -1914,10 +1922,11 @@ fn evaluate_scalar_func(
                 .downcast_ref::<StringArray>()
                 .ok_or_else(|| QueryError::Type("LEFT requires string argument".into()))?;
             let len_arr = &evaluated_args[1];
+            let len_nulls = len_arr.logical_nulls();
 
             let result: StringArray = (0..str_arr.len())
                 .map(|i| {
-                    if str_arr.is_null(i) {
+                    if str_arr.is_null(i) || len_nulls.as_ref().is_some_and(|n| n.is_null(i)) {
                         None
                     } else {
                         let s = str_arr.value(i);
@@ -1940,10 +1949,11 @@ fn evaluate_scalar_func(
                 .downcast_ref::<StringArray>()
                 .ok_or_else(|| QueryError::Type("RIGHT requires string argument".into()))?;
             let len_arr = &evaluated_args[1];
+            let len_nulls = len_arr.logical_nulls();
 
             let result: StringArray = (0..str_arr.len())
                 .map(|i| {
-                    if str_arr.is_null(i) {
+                    if str_arr.is_null(i) || len_nulls.as_ref().is_some_and(|n| n.is_null(i)) {
                         None
                     } else {
                         let s = str_arr.value(i);
@@ -1968,10 +1978,11 @@ fn evaluate_scalar_func(
                 .downcast_ref::<StringArray>()
                 .ok_or_else(|| QueryError::Type("REPEAT requires string argument".into()))?;
             let count_arr = &evaluated_args[1];
+            let count_nulls = count_arr.logical_nulls();
 
             let result: StringArray = (0..str_arr.len())
                 .map(|i| {
-                    if str_arr.is_null(i) {
+                    if str_arr.is_null(i) || count_nulls.as_ref().is_some_and(|n| n.is_null(i)) {
                         None
                     } else {
                         let s = str_arr.value(i);
@@ -2198,7 +2209,7 @@ fn evaluate_scalar_func(
                 use chrono::{Duration, Months, NaiveDate};
                 let result: Date32Array = (0..date32_arr.len())
                     .map(|i| {
-                        if date32_arr.is_null(i) || unit_arr.is_null(i) {
+                        if date32_arr.is_null(i) || unit_arr.is_null(i) || value_arr.is_null(i) {
                             return None;
                         }
                         let days = date32_arr.value(i);
@@ -2243,7 +2254,7 @@ fn evaluate_scalar_func(
                 use chrono::{Duration, Months, TimeZone, Utc};
                 let result: TimestampMicrosecondArray = (0..ts_arr.len())
                     .map(|i| {
-                        if ts_arr.is_null(i) || unit_arr.is_null(i) {
+                        if ts_arr.is_null(i) || unit_arr.is_null(i) || value_arr.is_null(i) {
                             return None;
                         }
                         let micros = ts_arr.value(i);
@@ -5775,6 +5786,9 @@ fn constant_int_value(expr: &crate::planner::Expr, arr: &ArrayRef) -> Option<i64
         };
     }
     if arr.len() == 1 {
+        if arr.logical_nulls().is_some_and(|n| n.is_null(0)) {
+            return None;
+        }
         return get_int_value(arr, 0);
     }
     None
